@@ -282,6 +282,13 @@ def r4(ctx):
     if ctx.floor(rule, 'regular-file filter (retain + is_file)', len(file_r), 1, b.where()):
         c, cb = file_r[0]
         rs = backslice(cb, [0])
+        from ..analysis import truth_table, table_equals
+        isf = cb.calls(r'Metadata::is_file$')
+        ident = False
+        if isf:
+            tt = truth_table(cb, {'is_file': isf[0].bb})
+            ident = table_equals(tt, lambda a: a['is_file'])[0]
+        ctx.check(ident, rule, P + '|regular-files-identity', c.where(), 'a file is kept iff metadata.is_file()', 'the filter keeps entries for which is_file() is false (or drops regular files)')
         ctx.check(b.dominates(c.bb, Pbb) and rs.has_call(r'Metadata::is_file$') and count_nots(cb, rs) == 0, rule, P + '|regular-files-only', c.where(),
                   'files.retain(is_file) dominates the result', 'the regular-file filter is conditional or does not return is_file')
     if ctx.floor(rule, 'length filter (retain + len == file_len)', len(len_r), 1, b.where()):
